@@ -25,7 +25,7 @@ CanonApp(j) == [demand |-> j.demand, prio |-> j.prio, aff |-> j.aff, limits |-> 
                 blacklisted |-> j.blacklisted, traits |-> SetOf(j.traits),
                 own |-> SetOf(j.own), order |-> j.order]
 CanonGrp(j) == [count |-> j.count, available |-> SetOf(j.available)]
-Canon(js) == [clock |-> js.clock,
+Canon(js) == [clock |-> js.clock, nea |-> js.nea,
               servers |-> [s \in DOMAIN js.servers |-> CanonSrv(js.servers[s])],
               buckets |-> [b \in DOMAIN js.buckets |-> CanonBkt(js.buckets[b])],
               apps |-> [a \in DOMAIN js.apps |-> CanonApp(js.apps[a])],
